@@ -623,38 +623,300 @@ fn limiter<'a>(strat: &'a Strat, rng: &'a mut Rng) -> impl FnMut(usize, u64, boo
     }
 }
 
-struct Out {
-    files: Vec<CaseFile>,
-    descs: Vec<BTreeMap<String, Vec<Value>>>,
-    bytes: Vec<usize>,
-    next: usize,
-    emitted: u64,
-    skipped_big: u64,
-}
-impl Out {
-    fn push(&mut self, group: usize, label: &str, case: String, desc: Value) {
-        // keep every shard under ~400 KB
-        let sh = self.next % self.files.len();
-        self.next += 1;
-        if self.bytes[sh] + case.len() > 400_000 {
-            self.skipped_big += 1;
-            return;
-        }
-        self.bytes[sh] += case.len();
-        self.files[sh].push(group, case);
-        self.descs[sh].entry(label.into()).or_default().push(desc);
-        self.emitted += 1;
-    }
+#[derive(Default)]
+struct TxOut {
+    viol: Vec<Violation>,
+    cases: Vec<(String, Value)>,
+    stats: BTreeMap<String, u64>,
+    samples: Vec<Value>,
+    distinct: Vec<String>,
+    evaluations: u64,
 }
 
-fn known_signature(kind: &str) -> Option<String> {
-    Some(kind.to_string())
+const SIG_COMPLETE: &str = "complete-budget-ignores-cycles-of-the-suspended-group";
+const SIG_SIGNAL: &str = "signal-resume-restarts-the-cycle-budget";
+const SIG_IO: &str = "chunk-limit-crossed-by-io-syscall-skips-process-io";
+
+/// class code of ckb_vm::Error::Unexpected ("A deadlock situation has been reached!")
+fn unexpected_code() -> u64 {
+    vm_error_code("Unexpected")
+}
+
+fn process_tx(spec: &TxSpec, cons: &Arc<ckb_chain_spec::consensus::Consensus>, rt: &tokio::runtime::Runtime, mut rng: Rng, thorough: bool) -> TxOut {
+    let mut t = TxOut::default();
+    macro_rules! bump {
+        ($k:expr) => {
+            *t.stats.entry($k.to_string()).or_default() += 1
+        };
+    }
+    let n_part = if thorough { 400 } else { 22 };
+    let cap = if thorough { 4000 } else { 400 };
+    let cx = Ctx::new(spec, cons);
+    let name = spec_name(spec);
+    let sj = spec_json(spec);
+    let uses_pipes = spec.scripts.iter().any(|(p, _, _)| p.name.starts_with("spawn"));
+    let whole_res = cx.verify(u64::MAX);
+    let groups = match measure_groups(&cx) {
+        Ok(g) => g,
+        Err(e) => {
+            t.viol.push(Violation { what: format!("cannot measure the groups of {name}: {e}"), detail: json!({"tx": sj}), signature: None });
+            return t;
+        }
+    };
+    bump!("transactions");
+    bump!(format!("tx_groups_{}", groups.len()));
+    bump!(format!("whole_{}", whole_res.class().chars().take_while(|c| c.is_alphabetic()).collect::<String>()));
+    // ---- the uninterrupted cost ------------------------------------------
+    let cost = match &whole_res {
+        Res::Ok(c) => *c,
+        Res::Err(e) => {
+            // cycles of the groups before the failing one + cycles the failing group consumed
+            let k = e.src.unwrap_or(0);
+            groups[..k].iter().map(|g| g.cost).sum::<u64>() + groups[k].cost
+        }
+        Res::Panic(p) => {
+            t.viol.push(Violation { what: format!("verify(u64::MAX) panicked on {name}: {p}"), detail: json!({"tx": sj}), signature: None });
+            return t;
+        }
+    };
+    // the per-group measurements must add up to the whole run
+    let sum_ok: u64 = groups.iter().map(|g| g.cost).sum();
+    if let Res::Ok(c) = &whole_res {
+        if *c != sum_ok || groups.iter().any(|g| g.fail.is_some()) {
+            t.viol.push(Violation { what: format!("{name}: verify(u64::MAX) = {c} but the groups run alone cost {:?}", groups), detail: json!({"tx": sj}), signature: None });
+            return t;
+        }
+    }
+    let w = Whole { res: whole_res.clone(), cost };
+    let gj = json!(groups.iter().map(|g| json!({"type_id": g.type_id, "cost": g.cost, "fail_class": g.fail})).collect::<Vec<_>>());
+    let cg = coq_groups(&groups);
+    let mk_detail = |run: Value| json!({"tx": sj, "tx_name": name, "groups": gj, "uninterrupted": res_json(&w.res), "cost": w.cost, "run": run});
+    // a chunked run of a pipe-using script that ends in the scheduler's
+    // "deadlock" error although the uninterrupted run does not: known class
+    let io_known = |r: &Res| -> bool {
+        uses_pipes && matches!(r, Res::Err(TErr { cause: Cause::Script(c), .. }) if *c == unexpected_code()) && !r.same_verdict(&w.res)
+    };
+
+    // ---- budgets: verify(max) --------------------------------------------
+    let mut budgets: Vec<u64> = vec![0, 1, cost.saturating_sub(1), cost, cost.saturating_add(1), u64::MAX, u64::MAX - 1];
+    let mut acc = 0u64;
+    for g in &groups {
+        acc += g.cost;
+        budgets.extend([acc.saturating_sub(1), acc, acc + 1]);
+    }
+    for _ in 0..4 {
+        budgets.push(rng.range(0, cost.saturating_add(cost / 4 + 2)));
+    }
+    budgets.sort();
+    budgets.dedup();
+    for max in budgets {
+        let r = cx.verify(max);
+        t.evaluations += 1;
+        bump!("run_verify_budget");
+        let runj = json!({"kind": "verify", "max": max, "observed": res_json(&r)});
+        if let Some(msg) = check_budget(&w, max, &r) {
+            t.viol.push(Violation { what: format!("{name}: verify({max}): {msg}"), detail: mk_detail(runj.clone()), signature: None });
+        }
+        t.cases.push((format!("mkCase {} (RVerify {} {})", cg, coq_n(max as u128), coq_res(&r)), mk_detail(runj)));
+    }
+
+    // ---- chunk partitions ------------------------------------------------
+    let mut strats: Vec<(Strat, bool)> = Vec::new();
+    // boundary-directed: chunks that end exactly at / one off a group boundary
+    let mut acc = 0u64;
+    for g in &groups {
+        for d in [0i64, -1, 1] {
+            let l = (acc + g.cost) as i64 + d;
+            if l >= 0 {
+                strats.push((Strat::List(vec![l as u64]), true));
+            }
+        }
+        let l2 = g.cost as i64 + [0i64, -1, 1][rng.below(3) as usize];
+        if l2 > 0 {
+            strats.push((Strat::Fixed(l2 as u64), true));
+        }
+        acc += g.cost;
+    }
+    strats.push((Strat::List(vec![0, 0, 1]), true));
+    strats.push((Strat::Fixed(u64::MAX), true));
+    let min_step = (cost / (cap as u64 - 50)).max(1);
+    for _ in 0..n_part {
+        let pause_mode = cx.pauses && rng.chance(1, 2);
+        let s = match rng.below(4) {
+            0 => Strat::Fixed(log_uniform(&mut rng, min_step.max(if cost < 50_000 { 1 } else { 700 }), cost.max(2))),
+            1 => Strat::Growing(log_uniform(&mut rng, (min_step / 8).max(1), cost.max(2))),
+            2 => {
+                let lo = log_uniform(&mut rng, min_step.max(600), cost.max(601));
+                Strat::Random(lo, lo.saturating_mul(rng.range(2, 64)))
+            }
+            _ => {
+                let n = rng.range(1, 5);
+                Strat::List((0..n).map(|_| rng.range(0, cost.saturating_add(2))).collect())
+            }
+        };
+        strats.push((s, !pause_mode));
+    }
+    // all split points at a coarse grain for cheap transactions
+    if cost <= 20_000 {
+        let n = if thorough { 2000 } else { 40 };
+        let grain = (cost / n).max(1);
+        let mut k = grain;
+        while k < cost {
+            strats.push((Strat::List(vec![k]), true));
+            k += grain;
+        }
+    }
+    for (si, (strat, skip_pause)) in strats.iter().enumerate() {
+        let mut r2 = rng.fork();
+        let mut lim = limiter(strat, &mut r2);
+        let run = run_chunks(&cx, *skip_pause, &mut lim, cap);
+        drop(lim);
+        t.evaluations += 1;
+        bump!("run_chunked");
+        *t.stats.entry("chunks_total".into()).or_default() += run.limits.len() as u64;
+        if run.limits.len() > 1 {
+            t.distinct.push(format!("{name}:{:?}", run.limits));
+        }
+        if !*skip_pause {
+            bump!("run_chunked_with_debug_pause");
+        }
+        let mut runj = json!({"kind": "chunks", "skip_debug_pause": skip_pause, "limits": run.limits,
+                              "suspensions": run.susp.iter().map(susp_json).collect::<Vec<_>>(), "end": end_json(&run.end)});
+        let end_res = match &run.end {
+            End::Err(e) => Some(Res::Err(e.clone())),
+            End::Done(c) => Some(Res::Ok(*c)),
+            _ => None,
+        };
+        let io = end_res.as_ref().map(|r| io_known(r)).unwrap_or(false);
+        if io {
+            runj["known_class"] = json!(SIG_IO);
+        }
+        if let Some(msg) = check_chunk_end(&w, &run.end) {
+            t.viol.push(Violation { what: format!("{name}: {msg}"), detail: mk_detail(runj.clone()), signature: if io { Some(SIG_IO.into()) } else { None } });
+        }
+        if run.end == End::Open {
+            bump!("run_chunked_open_at_cap");
+        }
+        // consumed cycles recorded in a state never exceed the uninterrupted cost
+        for s in &run.susp {
+            if matches!(w.res, Res::Ok(_)) && s.cycles + s.progress.unwrap_or(0) > cost {
+                t.viol.push(Violation { what: format!("{name}: a suspended state holds {} + {} cycles, more than the uninterrupted cost {}", s.cycles, s.progress.unwrap_or(0), cost), detail: mk_detail(runj.clone()), signature: None });
+                break;
+            }
+        }
+        if run.limits.len() <= 20 && *skip_pause {
+            let mut d = mk_detail(runj.clone());
+            if io {
+                d["known_signature"] = json!(SIG_IO);
+            }
+            t.cases.push((format!("mkCase {} (RChunks {} {} {})", cg, coq_list(&run.limits, |l| coq_n(*l as u128)), coq_list(&run.susp, coq_susp), coq_end(&run.end)), d));
+        }
+        if t.samples.is_empty() && run.limits.len() >= 3 && groups.len() >= 2 {
+            t.samples.push(mk_detail(runj.clone()));
+        }
+        // ---- complete() from an intermediate state -----------------------
+        if si % 3 == 0 {
+            // re-run a prefix of this partition to get a state, then complete it
+            if run.susp.is_empty() {
+                continue;
+            }
+            let k = rng.range(1, run.susp.len() as u64) as usize;
+            let pre: Vec<u64> = run.limits[..k].to_vec();
+            let mut it = pre.clone().into_iter();
+            let mut lim2 = move |_i: usize, _p: u64, _s: bool| it.next();
+            let run2 = run_chunks(&cx, *skip_pause, &mut lim2, cap);
+            if run2.end != End::Open || run2.last.is_none() {
+                continue;
+            }
+            let st = run2.last.as_ref().unwrap();
+            let sp = susp_of(st);
+            let prog = sp.progress.unwrap_or(0);
+            let consumed = sp.cycles + prog;
+            let mut maxes = vec![u64::MAX, cost, cost.saturating_sub(1)];
+            maxes.push(*rng.pick(&[cost.saturating_add(1), sp.cycles.saturating_sub(1), cost.saturating_sub(prog), cost.saturating_sub(prog).saturating_sub(1)]));
+            maxes.push(rng.range(0, cost));
+            maxes.sort();
+            maxes.dedup();
+            for max in maxes {
+                let r = complete(&cx, st, max);
+                t.evaluations += 1;
+                bump!("run_complete");
+                let mut runj = json!({"kind": "complete", "skip_debug_pause": skip_pause, "limits": pre, "state": susp_json(&sp), "max": max, "observed": res_json(&r)});
+                let io = io_known(&r);
+                if let Some(msg) = check_budget(&w, max, &r) {
+                    // known class: complete() grants the suspended group the cycles it
+                    // already consumed on top of the budget: it behaves like the
+                    // unlimited run (or reports an internal "Other" error) although max < cost
+                    let known = max < w.cost && prog > 0 && (r.same_verdict(&w.res) || matches!(&r, Res::Err(TErr { cause: Cause::Other, .. })));
+                    let sig = if io { Some(SIG_IO.to_string()) } else if known { Some(SIG_COMPLETE.to_string()) } else { None };
+                    if let Some(s) = &sig {
+                        runj["known_class"] = json!(s);
+                    }
+                    t.viol.push(Violation { what: format!("{name}: complete(state after {k} chunks [{} cycles consumed], {max}): {msg}", consumed), detail: mk_detail(runj.clone()), signature: sig });
+                }
+                if pre.len() <= 20 && *skip_pause {
+                    let mut d = mk_detail(runj);
+                    if io {
+                        d["known_signature"] = json!(SIG_IO);
+                    }
+                    t.cases.push((format!("mkCase {} (RComplete {} {} {} {})", cg, coq_list(&pre, |l| coq_n(*l as u128)), coq_list(&run2.susp, coq_susp), coq_n(max as u128), coq_res(&r)), d));
+                }
+            }
+        }
+    }
+
+    // ---- pause / resume signals ------------------------------------------
+    let n_sig = if thorough { 24 } else { 5 };
+    for i in 0..n_sig {
+        let limit = match i % 5 {
+            0 => u64::MAX,
+            1 => cost,
+            2 => cost.saturating_sub(1),
+            3 => cost + 1,
+            _ => rng.range(0, cost + 10),
+        };
+        let mut steps = Vec::new();
+        let n = rng.range(0, 4);
+        for _ in 0..n {
+            steps.push((rng.range(0, 400), 0u8));
+            steps.push((rng.range(0, 400), 1u8));
+        }
+        steps.push((0, 1u8));
+        let sig = Sig::Timed(steps.clone());
+        let (r, _) = run_signal(&cx, rt, limit, &sig);
+        t.evaluations += 1;
+        bump!("run_signal_timed");
+        let runj = json!({"kind": "signal", "limit": limit, "commands_us": steps, "observed": res_json(&r)});
+        if let Some(msg) = check_budget(&w, limit, &r) {
+            // known class: every Resume restarts the group's cycle budget
+            let known = limit < w.cost && n > 0 && (r.same_verdict(&w.res) || matches!(&r, Res::Err(TErr { cause: Cause::Other, .. })));
+            t.viol.push(Violation { what: format!("{name}: resumable_verify_with_signal({limit}) with {n} suspend/resume pairs: {msg}"), detail: mk_detail(runj),
+                                    signature: if known { Some(SIG_SIGNAL.into()) } else { None } });
+        }
+    }
+    if cx.pauses {
+        for limit in [u64::MAX, cost, cost - 1] {
+            let (r, landed) = run_signal(&cx, rt, limit, &Sig::AtPause);
+            t.evaluations += 1;
+            bump!("run_signal_at_debug_pause");
+            if landed {
+                bump!("run_signal_at_debug_pause_landed");
+            }
+            let runj = json!({"kind": "signal_at_pause", "limit": limit, "suspend_landed_mid_run": landed, "observed": res_json(&r)});
+            if let Some(msg) = check_budget(&w, limit, &r) {
+                let known = limit < w.cost && landed && (r.same_verdict(&w.res) || matches!(&r, Res::Err(TErr { cause: Cause::Other, .. })));
+                t.viol.push(Violation { what: format!("{name}: resumable_verify_with_signal({limit}), Suspend while the VM sits in its debug-pause syscall, then Resume: {msg}"), detail: mk_detail(runj),
+                                        signature: if known { Some(SIG_SIGNAL.into()) } else { None } });
+            }
+        }
+    }
+    t
 }
 
 fn main() {
     let progs = programs();
     let cons = consensus();
-    let rt = tokio::runtime::Builder::new_multi_thread().worker_threads(3).enable_all().build().unwrap();
+    let rt = tokio::runtime::Builder::new_multi_thread().worker_threads(4).enable_all().build().unwrap();
     if let Ok(p) = std::env::var("HX_REPLAY") {
         replay(&p, &progs, &cons, &rt);
     }
@@ -668,6 +930,34 @@ fn main() {
         }
     }
     let mut rng = Rng::new(seed);
+    let specs = gen_specs(&mut rng, &progs, thorough);
+    let rngs: Vec<Rng> = specs.iter().map(|_| rng.fork()).collect();
+    // transactions are independent: run them on worker threads, merge in order
+    let next = std::sync::atomic::AtomicUsize::new(0);
+    let results: std::sync::Mutex<Vec<Option<TxOut>>> = std::sync::Mutex::new((0..specs.len()).map(|_| None).collect());
+    let workers = std::thread::available_parallelism().map(|n| n.get()).unwrap_or(4).clamp(2, 12);
+    std::thread::scope(|sc| {
+        for _ in 0..workers {
+            sc.spawn(|| loop {
+                let i = next.fetch_add(1, std::sync::atomic::Ordering::SeqCst);
+                if i >= specs.len() {
+                    break;
+                }
+                let r = catch_unwind(AssertUnwindSafe(|| process_tx(&specs[i], &cons, &rt, rngs[i].clone(), thorough)));
+                let t = match r {
+                    Ok(t) => t,
+                    Err(p) => {
+                        let mut t = TxOut::default();
+                        t.viol.push(Violation { what: format!("harness panic on {}: {}", spec_name(&specs[i]), panic_text(p)), detail: json!({"tx": spec_json(&specs[i])}), signature: None });
+                        t
+                    }
+                };
+                results.lock().unwrap()[i] = Some(t);
+            });
+        }
+    });
+    let results: Vec<TxOut> = results.into_inner().unwrap().into_iter().map(|t| t.unwrap()).collect();
+
     let mut stats: BTreeMap<String, u64> = BTreeMap::new();
     let mut viol: Vec<Violation> = Vec::new();
     let mut samples: Vec<Value> = Vec::new();
@@ -675,271 +965,55 @@ fn main() {
     let mut evaluations = 0u64;
     let shards = 16usize;
     let header = "From CKB Require Import Script.Chunk Script.ChunkCases.";
-    let mut o = Out {
-        files: (0..shards)
-            .map(|i| {
-                let mut cf = CaseFile::new(&out, &format!("cases_{:02}", i), header);
-                cf.group("run", "case", "check_case");
-                cf
-            })
-            .collect(),
-        descs: (0..shards).map(|_| BTreeMap::new()).collect(),
-        bytes: vec![0; shards],
-        next: 0,
-        emitted: 0,
-        skipped_big: 0,
-    };
-    macro_rules! bump {
-        ($k:expr) => {
-            *stats.entry($k.to_string()).or_default() += 1
-        };
-    }
-
-    let specs = gen_specs(&mut rng, &progs, thorough);
-    let n_part = if thorough { 400 } else { 40 };
-    let cap = if thorough { 4000 } else { 600 };
-    for spec in &specs {
-        let cx = Ctx::new(spec, &cons);
-        let name = spec_name(spec);
-        let sj = spec_json(spec);
-        let whole_res = cx.verify(u64::MAX);
-        let groups = match measure_groups(&cx) {
-            Ok(g) => g,
-            Err(e) => {
-                viol.push(Violation { what: format!("cannot measure the groups of {name}: {e}"), detail: json!({"tx": sj}), signature: None });
+    let mut files: Vec<CaseFile> = (0..shards)
+        .map(|i| {
+            let mut cf = CaseFile::new(&out, &format!("cases_{:02}", i), header);
+            cf.group("run", "case", "check_case");
+            cf
+        })
+        .collect();
+    let mut descs: Vec<BTreeMap<String, Vec<Value>>> = (0..shards).map(|_| BTreeMap::new()).collect();
+    let mut bytes = vec![0usize; shards];
+    let (mut emitted, mut dropped, mut nextc) = (0u64, 0u64, 0usize);
+    for t in results {
+        for (k, v) in t.stats {
+            *stats.entry(k).or_default() += v;
+        }
+        viol.extend(t.viol);
+        if samples.len() < 3 {
+            samples.extend(t.samples);
+        }
+        distinct.extend(t.distinct);
+        evaluations += t.evaluations;
+        for (case, desc) in t.cases {
+            let sh = nextc % shards;
+            nextc += 1;
+            // keep every shard under ~400 KB
+            if bytes[sh] + case.len() > 400_000 {
+                dropped += 1;
                 continue;
             }
-        };
-        bump!("transactions");
-        bump!(format!("tx_groups_{}", groups.len()));
-        bump!(format!("whole_{}", whole_res.class().chars().take_while(|c| c.is_alphabetic()).collect::<String>()));
-        // ---- the uninterrupted cost --------------------------------------
-        let cost = match &whole_res {
-            Res::Ok(c) => *c,
-            Res::Err(e) => {
-                // cycles of the groups before the failing one + cycles the failing group consumed
-                let k = e.src.unwrap_or(0);
-                groups[..k].iter().map(|g| g.cost).sum::<u64>() + groups[k].cost
-            }
-            Res::Panic(p) => {
-                viol.push(Violation { what: format!("verify(u64::MAX) panicked on {name}: {p}"), detail: json!({"tx": sj}), signature: None });
-                continue;
-            }
-        };
-        // the per-group measurements must add up to the whole run
-        let sum_ok: u64 = groups.iter().map(|g| g.cost).sum();
-        if let Res::Ok(c) = &whole_res {
-            if *c != sum_ok || groups.iter().any(|g| g.fail.is_some()) {
-                viol.push(Violation { what: format!("{name}: verify(u64::MAX) = {c} but the groups run alone cost {:?}", groups), detail: json!({"tx": sj}), signature: None });
-                continue;
-            }
-        }
-        let w = Whole { res: whole_res.clone(), cost };
-        let gj = json!(groups.iter().map(|g| json!({"type_id": g.type_id, "cost": g.cost, "fail_class": g.fail})).collect::<Vec<_>>());
-        let cg = coq_groups(&groups);
-        let mk_detail = |run: Value| json!({"tx": sj, "tx_name": name, "groups": gj, "uninterrupted": res_json(&w.res), "cost": w.cost, "run": run});
-
-        // ---- budgets: verify(max) ----------------------------------------
-        let mut budgets: Vec<u64> = vec![0, 1, cost.saturating_sub(1), cost, cost.saturating_add(1), u64::MAX, u64::MAX - 1];
-        let mut acc = 0u64;
-        for g in &groups {
-            acc += g.cost;
-            budgets.extend([acc.saturating_sub(1), acc, acc + 1]);
-        }
-        for _ in 0..6 {
-            budgets.push(rng.range(0, cost.saturating_add(cost / 4 + 2)));
-        }
-        budgets.sort();
-        budgets.dedup();
-        for max in budgets {
-            let r = cx.verify(max);
-            evaluations += 1;
-            bump!("run_verify_budget");
-            let runj = json!({"kind": "verify", "max": max, "observed": res_json(&r)});
-            if let Some(msg) = check_budget(&w, max, &r) {
-                viol.push(Violation { what: format!("{name}: verify({max}): {msg}"), detail: mk_detail(runj.clone()), signature: None });
-            }
-            o.push(0, "run", format!("mkCase {} (RVerify {} {})", cg, coq_n(max as u128), coq_res(&r)), mk_detail(runj));
-        }
-
-        // ---- chunk partitions --------------------------------------------
-        let mut strats: Vec<(Strat, bool)> = Vec::new();
-        // boundary-directed: chunks that end exactly at / one off a group boundary
-        let mut acc = 0u64;
-        for g in &groups {
-            for d in [0i64, -1, 1] {
-                let l = (acc + g.cost) as i64 + d;
-                if l >= 0 {
-                    strats.push((Strat::List(vec![l as u64]), true));
-                }
-                let l2 = g.cost as i64 + d;
-                if l2 > 0 {
-                    strats.push((Strat::Fixed(l2 as u64), true));
-                }
-            }
-            acc += g.cost;
-        }
-        strats.push((Strat::List(vec![0, 0, 1]), true));
-        strats.push((Strat::Fixed(u64::MAX), true));
-        let min_step = (cost / (cap as u64 - 50)).max(1);
-        for _ in 0..n_part {
-            let pause_mode = cx.pauses && rng.chance(1, 2);
-            let s = match rng.below(4) {
-                0 => Strat::Fixed(log_uniform(&mut rng, min_step.max(if cost < 50_000 { 1 } else { 700 }), cost.max(2))),
-                1 => Strat::Growing(log_uniform(&mut rng, (min_step / 8).max(1), cost.max(2))),
-                2 => {
-                    let lo = log_uniform(&mut rng, min_step.max(600), cost.max(601));
-                    Strat::Random(lo, lo.saturating_mul(rng.range(2, 64)))
-                }
-                _ => {
-                    let n = rng.range(1, 5);
-                    Strat::List((0..n).map(|_| rng.range(0, cost.saturating_add(2))).collect())
-                }
-            };
-            strats.push((s, !pause_mode));
-        }
-        // all split points at a coarse grain for cheap transactions
-        if cost <= 20_000 {
-            let n = if thorough { 2000 } else { 48 };
-            let grain = (cost / n).max(1);
-            let mut k = grain;
-            while k < cost {
-                strats.push((Strat::List(vec![k]), true));
-                k += grain;
-            }
-        }
-        for (si, (strat, skip_pause)) in strats.iter().enumerate() {
-            let mut r2 = rng.fork();
-            let mut lim = limiter(strat, &mut r2);
-            let run = run_chunks(&cx, *skip_pause, &mut lim, cap);
-            drop(lim);
-            evaluations += 1;
-            bump!("run_chunked");
-            *stats.entry("chunks_total".into()).or_default() += run.limits.len() as u64;
-            if run.limits.len() > 1 {
-                distinct.insert(format!("{name}:{:?}", run.limits));
-            }
-            if !*skip_pause {
-                bump!("run_chunked_with_debug_pause");
-            }
-            let runj = json!({"kind": "chunks", "skip_debug_pause": skip_pause, "limits": run.limits,
-                              "suspensions": run.susp.iter().map(susp_json).collect::<Vec<_>>(), "end": end_json(&run.end)});
-            if let Some(msg) = check_chunk_end(&w, &run.end) {
-                viol.push(Violation { what: format!("{name}: {msg}"), detail: mk_detail(runj.clone()), signature: None });
-            }
-            if run.end == End::Open {
-                bump!("run_chunked_open_at_cap");
-            }
-            // consumed cycles recorded in a state never exceed the uninterrupted cost
-            for s in &run.susp {
-                if matches!(w.res, Res::Ok(_)) && s.cycles + s.progress.unwrap_or(0) > cost {
-                    viol.push(Violation { what: format!("{name}: a suspended state holds {} + {} cycles, more than the uninterrupted cost {}", s.cycles, s.progress.unwrap_or(0), cost), detail: mk_detail(runj.clone()), signature: None });
-                    break;
-                }
-            }
-            if run.limits.len() <= 24 && *skip_pause {
-                o.push(0, "run", format!("mkCase {} (RChunks {} {} {})", cg, coq_list(&run.limits, |l| coq_n(*l as u128)), coq_list(&run.susp, coq_susp), coq_end(&run.end)), mk_detail(runj.clone()));
-            }
-            if samples.len() < 3 && run.limits.len() >= 3 && groups.len() >= 2 {
-                samples.push(mk_detail(runj.clone()));
-            }
-            // ---- complete() from an intermediate state -------------------
-            if si % 3 == 0 {
-                // re-run a prefix of this partition to get a state, then complete it
-                if run.susp.is_empty() {
-                    continue;
-                }
-                let k = rng.range(1, run.susp.len() as u64) as usize;
-                let pre: Vec<u64> = run.limits[..k].to_vec();
-                let mut it = pre.clone().into_iter();
-                let mut lim2 = move |_i: usize, _p: u64, _s: bool| it.next();
-                let run2 = run_chunks(&cx, *skip_pause, &mut lim2, cap);
-                if run2.end != End::Open || run2.last.is_none() {
-                    continue;
-                }
-                let st = run2.last.as_ref().unwrap();
-                let sp = susp_of(st);
-                let consumed = sp.cycles + sp.progress.unwrap_or(0);
-                let mut maxes = vec![u64::MAX, cost, cost.saturating_add(1), cost.saturating_sub(1)];
-                maxes.push(sp.cycles.saturating_sub(1));
-                maxes.push(cost.saturating_sub(sp.progress.unwrap_or(0)));
-                maxes.push(rng.range(0, cost));
-                maxes.sort();
-                maxes.dedup();
-                for max in maxes {
-                    let r = complete(&cx, st, max);
-                    evaluations += 1;
-                    bump!("run_complete");
-                    let runj = json!({"kind": "complete", "skip_debug_pause": skip_pause, "limits": pre, "state": susp_json(&sp), "max": max, "observed": res_json(&r)});
-                    if let Some(msg) = check_budget(&w, max, &r) {
-                        // known class: complete() grants the suspended group its
-                        // already consumed cycles on top of the budget
-                        let known = max < w.cost && matches!(w.res, Res::Ok(_)) && matches!(r, Res::Ok(c) if c == cost)
-                            && sp.progress.unwrap_or(0) > 0 && max.saturating_add(sp.progress.unwrap_or(0)) >= cost;
-                        let known_other = max < w.cost && matches!(&r, Res::Err(TErr { cause: Cause::Other, .. })) && sp.progress.unwrap_or(0) > 0;
-                        let sig = if known { known_signature("complete-budget-ignores-cycles-of-the-suspended-group") }
-                                  else if known_other { known_signature("complete-budget-ignores-cycles-of-the-suspended-group") } else { None };
-                        viol.push(Violation { what: format!("{name}: complete(state after {k} chunks [{} cycles consumed], {max}): {msg}", consumed), detail: mk_detail(runj.clone()), signature: sig });
-                    }
-                    if pre.len() <= 24 && *skip_pause {
-                        o.push(0, "run", format!("mkCase {} (RComplete {} {} {} {})", cg, coq_list(&pre, |l| coq_n(*l as u128)), coq_list(&run2.susp, coq_susp), coq_n(max as u128), coq_res(&r)), mk_detail(runj));
-                    }
-                }
-            }
-        }
-
-        // ---- pause / resume signals --------------------------------------
-        let n_sig = if thorough { 24 } else { 5 };
-        for i in 0..n_sig {
-            let limit = match i % 5 {
-                0 => u64::MAX,
-                1 => cost,
-                2 => cost.saturating_sub(1),
-                3 => cost + 1,
-                _ => rng.range(0, cost + 10),
-            };
-            let mut steps = Vec::new();
-            let n = rng.range(0, 4);
-            for _ in 0..n {
-                steps.push((rng.range(0, 400), 0u8));
-                steps.push((rng.range(0, 400), 1u8));
-            }
-            steps.push((0, 1u8));
-            let sig = Sig::Timed(steps.clone());
-            let (r, _) = run_signal(&cx, &rt, limit, &sig);
-            evaluations += 1;
-            bump!("run_signal_timed");
-            let runj = json!({"kind": "signal", "limit": limit, "commands_us": steps, "observed": res_json(&r)});
-            if let Some(msg) = check_budget(&w, limit, &r) {
-                let known = limit < w.cost && matches!(w.res, Res::Ok(_)) && (matches!(r, Res::Ok(c) if c == cost) || matches!(&r, Res::Err(TErr { cause: Cause::Other, .. }))) && n > 0;
-                viol.push(Violation { what: format!("{name}: resumable_verify_with_signal({limit}) with {n} suspend/resume pairs: {msg}"), detail: mk_detail(runj),
-                                      signature: if known { known_signature("signal-resume-restarts-the-cycle-budget") } else { None } });
-            }
-        }
-        if cx.pauses {
-            for limit in [u64::MAX, cost, cost - 1] {
-                let (r, landed) = run_signal(&cx, &rt, limit, &Sig::AtPause);
-                evaluations += 1;
-                bump!("run_signal_at_debug_pause");
-                if landed {
-                    bump!("run_signal_at_debug_pause_landed");
-                }
-                let runj = json!({"kind": "signal_at_pause", "limit": limit, "suspend_landed_mid_run": landed, "observed": res_json(&r)});
-                if let Some(msg) = check_budget(&w, limit, &r) {
-                    let known = limit < w.cost && matches!(w.res, Res::Ok(_)) && landed && (matches!(r, Res::Ok(c) if c == cost) || matches!(&r, Res::Err(TErr { cause: Cause::Other, .. })));
-                    viol.push(Violation { what: format!("{name}: resumable_verify_with_signal({limit}), Suspend while the VM sits in its debug-pause syscall, then Resume: {msg}"), detail: mk_detail(runj),
-                                          signature: if known { known_signature("signal-resume-restarts-the-cycle-budget") } else { None } });
-                }
-            }
+            bytes[sh] += case.len();
+            files[sh].push(0, case);
+            descs[sh].entry("run".into()).or_default().push(desc);
+            emitted += 1;
         }
     }
-
-    for (i, cf) in o.files.iter().enumerate() {
+    for (i, cf) in files.iter().enumerate() {
         cf.write().unwrap();
-        fs::write(out.join(format!("cases_{:02}.json", i)), serde_json::to_string(&o.descs[i]).unwrap()).unwrap();
+        fs::write(out.join(format!("cases_{:02}.json", i)), serde_json::to_string(&descs[i]).unwrap()).unwrap();
     }
-    stats.insert("coq_cases".into(), o.emitted);
-    stats.insert("coq_cases_dropped_size_cap".into(), o.skipped_big);
+    stats.insert("coq_cases".into(), emitted);
+    stats.insert("coq_cases_dropped_size_cap".into(), dropped);
+    let mut known_counts: BTreeMap<String, u64> = BTreeMap::new();
+    for v in &viol {
+        if let Some(s) = &v.signature {
+            *known_counts.entry(s.clone()).or_default() += 1;
+        }
+    }
+    // one representative per known class is enough for the report
+    let mut seen_sig = std::collections::BTreeSet::new();
+    let viol_out: Vec<&Violation> = viol.iter().filter(|v| match &v.signature { Some(s) => seen_sig.insert(s.clone()), None => true }).collect();
     let summary = json!({
         "property": "C05",
         "seed": seed,
@@ -948,15 +1022,16 @@ fn main() {
         "rule": "one evaluation = one run of verify(max) / a resumable_verify+resume_from_state chain / complete / resumable_verify_with_signal on a transaction built around script/testdata programs, compared with verify(u64::MAX) of the same transaction; distinct = distinct (transaction, list of chunk limits) with at least two chunks",
         "distribution": stats,
         "samples": samples,
-        "impl_violations": viol.iter().map(|v| {
+        "extra_coverage": {"known_class_hits": known_counts},
+        "impl_violations": viol_out.iter().map(|v| {
             let mut j = json!({"what": v.what, "detail": v.detail});
             if let Some(s) = &v.signature { j["signature"] = json!(s); }
             j
         }).collect::<Vec<_>>(),
     });
     fs::write(out.join("summary.json"), serde_json::to_string_pretty(&summary).unwrap()).unwrap();
-    println!("hx-script: {} evaluations over {} transactions, {} coq cases, {} implementation-side violations",
-             evaluations, specs.len(), o.emitted, viol.len());
+    println!("hx-script: {} evaluations over {} transactions, {} coq cases, {} implementation-side violations ({} outside the known classes)",
+             evaluations, specs.len(), emitted, viol.len(), viol.iter().filter(|v| v.signature.is_none()).count());
     let mut seen = std::collections::BTreeSet::new();
     for v in &viol {
         let key = v.signature.clone().unwrap_or_else(|| v.what.clone());
